@@ -133,7 +133,9 @@ class NeuralNetworkEmulator():
                     continue
                 try:
                     group.attrs[key + '_{}'.format(i)] = getattr(network, key)
-                except (TypeError, ValueError):
+                except (TypeError, ValueError, OSError):
+                    # Some attributes, e.g., very long loss curves, cannot be
+                    # stored as HDF5 attributes. They are not needed.
                     pass
 
             for k in range(network.n_layers_ - 1):
